@@ -36,6 +36,9 @@ var c19Hosts = []struct{ host, service, family string }{
 	// look-alikes
 	{"youtube.com.evil.example", "", "youtube"}, {"evilyoutube.com", "", "youtube"}, {"notyoutube.com", "", "youtube"}, {"youtube.co", "", "youtube"},
 	{"youtube-nocookie.com.evil.example", "", "youtube"}, {"xyoutube-nocookie.com", "", "youtube"},
+	// a registrable name that ends in an allow-listed one after a hyphen, underscore or digit
+	{"my-youtube.com", "", "youtube"}, {"free-youtube-nocookie.com", "", "youtube"}, {"cdn-player.vimeo.com", "", "vimeo"}, {"fake-twitter.com", "", "twitter"},
+	{"www.4youtube.com", "", "youtube"}, {"x_twitter.com", "", "twitter"},
 	{"vimeo.com", "", "vimeo"}, {"www.vimeo.com", "", "vimeo"}, {"evilplayer.vimeo.com", "", "vimeo"}, {"player.vimeo.com.evil.example", "", "vimeo"},
 	{"nottwitter.com", "", "twitter"}, {"twitter.com.evil.example", "", "twitter"}, {"twitter.co", "", "twitter"},
 	// userinfo tricks and name in path / query only
